@@ -229,6 +229,15 @@ def merge(parts):
         for k, v in p["known_examples"].items():
             out["known_examples"].setdefault(k, v)
         for k, v in p["extra"].items():
+            if k == "anchored_lines" and isinstance(v, dict):
+                cur = out["extra"].setdefault(k, {})
+                for label, info in v.items():
+                    if label not in cur:
+                        cur[label] = dict(info)
+                    else:  # a line is reached if any worker reached it
+                        missed = [ln for ln in cur[label].get("missed", []) if ln in info.get("missed", [])]
+                        cur[label] = {"lines_total": info.get("lines_total"), "lines_reached": max(cur[label].get("lines_reached", 0), info.get("lines_reached", 0), (info.get("lines_total") or 0) - len(missed) if len(info.get("missed", [])) < 12 and len(cur[label].get("missed", [])) < 12 else 0), "missed": missed}
+                continue
             if isinstance(v, list):
                 cur = out["extra"].setdefault(k, [])
                 for item in v:
